@@ -963,6 +963,13 @@ def transfer_setup(verb, place, size=None, rest=None, listen="PASV"):
         # (case["water"] lowers simnet's flow-control marks so that a small file is enough)
         files["f"] = 64
         steps += [["dconn_noread"]] + pre + [["cmd", c]]
+    elif kind == "stalled_gate":
+        # both at once: the data peer does not read (write buffer full after a few blocks) AND the n-th back-end
+        # call `op` is slow.  Depending on n the transfer is held by the back-end (n small) or by the peer with the
+        # back-end call still ahead of it - or, in an implementation that overlaps the two, by both at the same time
+        files["f"] = 64
+        gates = [[place[1], place[2]]]
+        steps += [["dconn_noread"]] + pre + [["cmd", c]]
     elif kind == "two":
         # TWO transfers alive in one session: the first one is held by its peer, then PASV again, a second data
         # connection and a second transfer command.  place = ("two", first, second) with first/second in
